@@ -75,9 +75,16 @@ def has_fstring(src: str) -> bool:
     return bool(_FPREFIX.search(src))
 
 
+_LONE_CR = re.compile(r"\r(?!\n)")
+
+
 def python_lexicon(src: str) -> bool:
-    """C02's domain, decided on characters (conservative: '$' inside a string literal excludes the text)."""
-    return not _XONSH_CHARS.search(src) and not _PPREFIX.search(src)
+    """C02's domain, decided on characters (conservative: '$' inside a string literal excludes the text).
+
+    A carriage return that is not part of CRLF is not a Python lexeme or line terminator in the sense of C01/C02
+    (which name LF and CRLF): CPython's compiler front end rewrites it to a newline before tokenizing, its tokenize
+    module does not; such texts are outside the domain (C03 and C08 still cover them)."""
+    return not _XONSH_CHARS.search(src) and not _PPREFIX.search(src) and not _LONE_CR.search(src)
 
 
 def c01_domain(src: str) -> bool:
